@@ -184,6 +184,36 @@ example : (applySet { Claims.new .p1 with sw := .nilIface, noSw := some 1 } (.sw
       { Claims.new .p1 with sw := .nilIface, noSw := some 1 } := by
   constructor <;> decide
 
+/-- the list a container operation carries -/
+def opVals : ContOp → List SwComp
+  | .add l => l
+  | .replace l => l
+
+/-- **The component container's own mutators** (`Add`, `Replace`) follow the same contract: accepted iff every component
+    validates; on success `Add` appends and `Replace` replaces, exactly; a refused call changes nothing. -/
+theorem container_ops (cur : List (Option SwComp)) (op : ContOp) :
+    ((contStep cur op).2 = .ok () ↔ (opVals op).all compOK = true) ∧
+    ((contStep cur op).2 = .ok () → (contStep cur op).1 =
+      (match op with | .add l => cur ++ l.map some | .replace l => l.map some)) ∧
+    ((contStep cur op).2 ≠ .ok () → (contStep cur op).1 = cur) := by
+  cases op with
+  | add l =>
+    simp only [contStep, addVals, opVals]
+    rcases validateAndConvert_cases l with h | ⟨m, h⟩
+    · have hh := (validateAndConvert_ok_iff l).mp h
+      rw [h]; simp [Outcome.bind, hh]
+    · have hh : ¬ l.all compOK = true := fun hh => by
+        rw [(validateAndConvert_ok_iff l).mpr hh] at h; cases h
+      rw [h]; simp [Outcome.bind, hh]
+  | replace l =>
+    simp only [contStep, opVals]
+    rcases validateAndConvert_cases l with h | ⟨m, h⟩
+    · have hh := (validateAndConvert_ok_iff l).mp h
+      rw [h]; simp [hh]
+    · have hh : ¬ l.all compOK = true := fun hh => by
+        rw [(validateAndConvert_ok_iff l).mpr hh] at h; cases h
+      rw [h]; simp [hh]
+
 /-- **History theorem** (last writer wins): after any sequence of setter calls on a fresh
     claims-set, the state is observably the canonical claims-set holding, per claim, the last
     value whose setter succeeded — independent of order, repetition and failed calls in between. -/
